@@ -28,10 +28,12 @@ def build_universe(ctx: Ctx, rng: random.Random) -> Tuple[List[dict], List[Any]]
     """Returns (abstract universe, constructor specs)."""
     names = [['svc._http._tcp.local.', 'SVC._http._tcp.local.', 'Svc._HTTP._tcp.LOCAL.'],
              ['host.local.', 'HOST.local.', 'Host.Local.'],
-             ['_http._tcp.local.', '_HTTP._tcp.local.', '_Http._Tcp.Local.']]
+             ['_http._tcp.local.', '_HTTP._tcp.local.', '_Http._Tcp.Local.'],
+             # a letter whose lower() and casefold() differ: 'stra\u00dfe' and 'strasse' are two names
+             ['stra\u00dfe.local.', 'strasse.local.', 'STRASSE.local.']]
     if ctx.thorough:
         names.append(['café büro._ipp._tcp.local.'])   # non-ASCII: identical spelling only
-    targets = ['a.local.', 'A.local.', 'b.local.']
+    targets = ['a.local.', 'A.local.', 'b.local.', 'wei\u00df.local.', 'weiss.local.']
     classes = [1, 0x8001, 3]
     ttls = [0, 120] if not ctx.thorough else [0, 120, 4500]
     createds = [1.0, 5000.0]
@@ -48,10 +50,11 @@ def build_universe(ctx: Ctx, rng: random.Random) -> Tuple[List[dict], List[Any]]
               # scope 0 (what an IPv6 socket reports for a non-link-local source) is not "no scope"
               (28, (b'\xfe\x80' + b'\0' * 13 + b'\x01', 0)), (28, (b'\xfd\x00' + b'\0' * 13 + b'\x02', 0)),
               (28, (b'\xfd\x00' + b'\0' * 13 + b'\x02', None))],
-        'PTR': [(12, (targets[0],)), (12, (targets[1],)), (12, (targets[2],)), (5, (targets[0],))],
-        'TXT': [(16, (b'\x03a=b',)), (16, (b'\x03A=b',)), (16, (b'',)), (12, (b'\x03a=b',))],
+        'PTR': [(12, (targets[0],)), (12, (targets[1],)), (12, (targets[2],)), (5, (targets[0],)), (12, (targets[3],)), (12, (targets[4],))],
+        'TXT': [(16, (b'\x03a=b',)), (16, (b'\x03A=b',)), (16, (b'',)), (12, (b'\x03a=b',)), (16, (b'\x00',))],
         'SRV': [(33, (0, 0, 80, targets[0])), (33, (1, 0, 80, targets[0])), (33, (0, 1, 80, targets[0])),
-                (33, (0, 0, 81, targets[0])), (33, (0, 0, 80, targets[1])), (33, (0, 0, 80, targets[2]))],
+                (33, (0, 0, 81, targets[0])), (33, (0, 0, 80, targets[1])), (33, (0, 0, 80, targets[2])),
+                (33, (0, 0, 80, targets[3])), (33, (0, 0, 80, targets[4]))],
         'HINFO': [(13, ('cpu', 'os')), (13, ('CPU', 'os')), (13, ('cpu', 'os2')), (13, ('os', 'cpu'))],
         'NSEC': [(47, (targets[0], (1, 28))), (47, (targets[1], (1, 28))), (47, (targets[0], (28, 1))),
                  (47, (targets[0], (1,))), (47, (targets[0], (1, 1, 28)))],
